@@ -246,19 +246,7 @@ def gen_cases(ctx, n):
         c = gen.case(max_nodes=ctx.n(14, 18))
         if list(c["indom"]) == [""]:
             continue
-        # keys the operator actually reads
-        keys = sorted({nd["k"] for nd in X.nodes(c["expr"]) if nd["t"] == "var"} & set(c["indom"]))
-        used = []
-        def collect(t, inner):
-            if t["t"] == "chain":
-                collect(t["g"], inner)
-                return
-            if t["t"] == "var" and not inner:
-                used.append(t["k"])
-            for ch in X.children(t):
-                collect(ch, inner)
-        collect(c["expr"], False)
-        keys = sorted(set(used))
+        keys = sorted(set(X.keys_read(c["expr"])) & set(c["indom"]))
         if len(keys) < 2:
             continue
         for S in X.subsets(keys):
